@@ -6,7 +6,7 @@ import time
 
 import numpy as np
 
-from vlib import evlog
+from vlib import evlog, sched
 
 PROPERTY = "C10"
 REPLAY_REPEATS = 10
@@ -42,7 +42,19 @@ def cases(tier, seed):
         M = R.choice([1, 2, 3, 6]) if N <= 4 else R.choice([1, 2, 3])
         out.append(dict(t="hist", fmt=fmt, mode=mode, N=N, M=M, layout=R.choice(["disjoint", "disjoint", "common"]),
                         pos=[R.choice([0, 1, 3]), 0, 0], maxdelay=R.choice([0.0, 0.005, 0.02]), seed=R.randrange(1 << 30),
-                        prior=R.choice(["none", "none", "file"]), mixfmt=(i % 3 == 0), longhold=(i % 5 == 2), pause_after_release=(i % 4 == 1)))
+                        prior=R.choice(["none", "none", "file"]), mixfmt=(i % 3 == 0), longhold=(i % 5 == 2), pause_after_release=(i % 4 == 1),
+                        linedelay=(i % 3 == 1)))
+        if out[-1]["linedelay"] and i % 2:
+            out[-1].update(N=R.choice([4, 6, 8]), M=R.choice([1, 1, 2]))  # updaters that finish and exit while others still contend
+    for i in range(36 if tier == "quick" else 700):
+        # many short histories in which updaters finish and exit while others still contend, under statement-boundary delays
+        fmt, mode = combos[(i * 5) % len(combos)]
+        out.append(dict(t="hist", fmt=fmt, mode=mode, N=R.choice([4, 6, 8]), M=R.choice([1, 1, 2]), layout=R.choice(["disjoint", "disjoint", "common"]),
+                        pos=[0, 0, 0], maxdelay=R.choice([0.0, 0.005, 0.02]), seed=R.randrange(1 << 30), prior="none", mixfmt=False, longhold=False,
+                        pause_after_release=False, linedelay=True))
+    for i in range(10 if tier == "quick" else 200):
+        out.append(dict(t="stage", kind=["mtan", "mwcs"][i % 2], n=R.choice([3, 4, 6]), par=R.choice([2, 3, 4]), size=R.choice([200, 256, 400]),
+                        profile=R.choice(["natural", "slow_workers", "jitter"]), seed=R.randrange(1 << 30)))
     for i in range(8 if tier == "quick" else 120):
         out.append(dict(t="sampling", fmt=R.choice(["npy", "fits", "png"]), depth=R.choice([1, 1, 2]), seed=R.randrange(1 << 30), parts=R.choice([2, 3])))
     for s in out:
@@ -151,6 +163,9 @@ def _updater(spec, base, idx, go_path):
 
         filelock.BaseFileLock.release = release
 
+    if spec.get("linedelay"):
+        # descheduling between any two statements of toasty's own tile I/O code (not of the lock library)
+        sched.install(spec["seed"] + idx, p=0.06, files=("pyramid.py",), lo=0.002, hi=0.25, budget=4.0)
     pio = PyramidIO(base, default_format=spec["fmt"])
     pos = Pos(*spec["pos"])
     R = random.Random("%d/%d" % (spec["seed"], idx))
@@ -178,6 +193,8 @@ def _updater(spec, base, idx, go_path):
             evlog.ev("upd_exc", cid=cid, e=repr(e)[:300])
         if R.random() < 0.5:
             time.sleep(R.random() * 0.01)
+    if spec.get("linedelay"):
+        evlog.ev("sched_stats", **sched.stats())
 
 
 def _read_final(spec, base):
@@ -326,6 +343,8 @@ def case_hist(spec, workdir):
     locks = [f for root, _, fs in os.walk(base) for f in fs if f.endswith(".lock")]
     counters = collections.Counter(histories=1, updates=spec["N"] * spec["M"], overlapping_update_calls=overlaps)
     counters["hist_%s_%s_%s" % (spec["fmt"], spec["mode"], spec["layout"])] += 1
+    counters["statement_delays_injected"] = sum(r.get("injected", 0) for r in recs if r["k"] == "sched_stats")
+    counters["histories_with_statement_delays"] = int(bool(spec.get("linedelay")))
     res = dict(counters=dict(counters), nontrivial=overlaps >= 1,
                sets=dict(mode_fmt_layout=[[spec["fmt"], spec["mode"], spec["layout"]]]),
                sample=dict(spec=spec, overlaps=overlaps,
@@ -418,9 +437,138 @@ def case_sampling(spec, workdir):
     return res
 
 
+def case_stage(spec, workdir):
+    """the real multi-image stages (MultiTanProcessor / MultiWcsProcessor, parallel) with every input landing in the same tile(s):
+    each input defines its own rows of the mosaic and is undefined elsewhere; workers are descheduled between statements of
+    toasty's tile I/O, so updates are slow and still running when the last item has been handed out"""
+    from vlib import fitsgen, instr_mp, models, tilegen, ref_study
+
+    from toasty.builder import Builder
+    from toasty.collection import SimpleFitsCollection
+    from toasty.pyramid import PyramidIO
+
+    R = random.Random(spec["seed"])
+    rng = np.random.default_rng(spec["seed"])
+    W = H = spec["size"]
+    n = spec["n"]
+    mosaic = rng.normal(size=(H, W)).astype(np.float32)
+    ref = (W / 2.0, H / 2.0)
+    scale = 10 ** R.uniform(-4, -3)
+    crval = (R.uniform(0, 360), R.uniform(-60, 60))
+    ind = os.path.join(workdir, "in")
+    os.makedirs(ind)
+    paths = []
+    for k in range(n):
+        src = np.full((H, W), np.nan, np.float32)
+        src[k::n] = mosaic[k::n]
+        paths.append(fitsgen.write_piece(os.path.join(ind, "p%02d.fits" % k), src, (0, 0, W, H), ref, scale=scale, crval=crval, bottoms_up=bool(k % 2) if spec["kind"] == "mwcs" else bool(spec["seed"] % 2)))
+    out = os.path.join(workdir, "pyr")
+    log = os.path.join(workdir, "log")
+    evlog.open_log(log)
+    instr_mp.install(spec["profile"], spec["seed"])
+    sched.install(spec["seed"], p=0.05, files=("pyramid.py",), lo=0.002, hi=0.12, budget=2.5)
+    pio = PyramidIO(out, default_format="fits")
+    b = Builder(pio)
+    if spec["kind"] == "mtan":
+        from toasty.multi_tan import MultiTanProcessor
+
+        proc = MultiTanProcessor(SimpleFitsCollection(paths))
+        proc.compute_global_pixelization(b)
+        fn = lambda: proc.tile(pio, parallel=spec["par"])
+    else:
+        from toasty.multi_wcs import MultiWcsProcessor
+
+        proc = MultiWcsProcessor(SimpleFitsCollection(paths))
+        proc.compute_global_pixelization(b)
+        fn = lambda: proc.tile(pio, _reproject_identity, parallel=spec["par"])
+    try:
+        outcome, info = models.run_stage(fn, log, "producer", watchdog=150)
+    finally:
+        sched.uninstall()
+        instr_mp.uninstall()
+    recs = evlog.read(log)
+    evlog.close_log()
+    if outcome == "watchdog":
+        return dict(status="inconclusive", detail="watchdog")
+    if outcome != "returned":
+        return dict(status="violation", key="stage-" + outcome, detail="%s stage outcome %s %s %s" % (spec["kind"], outcome, info, [r.get("e") for r in recs if r["k"] == "stage_exc"][:2]))
+    v = []
+    levels = b.imgset.tile_levels
+    nt = 0
+    lost = 0
+    tiles = sorted(tilegen.list_tiles(out, "fits"))
+    deepest = [t for t in tiles if t[0] == levels]
+    if spec["kind"] == "mtan":
+        g = ref_study.geometry(W, H)
+        P = g["p2n"]
+        canvas = np.full((P, P), np.nan, np.float32)
+        canvas[g["gy0"]:g["gy0"] + H, g["gx0"]:g["gx0"] + W] = mosaic
+        for ty in range(P // 256):
+            for tx in range(P // 256):
+                cut = canvas[ty * 256:(ty + 1) * 256, tx * 256:(tx + 1) * 256]
+                if np.isnan(cut).all():
+                    continue
+                t = tilegen.read_tile(out, (g["levels"], tx, ty), "fits")
+                nt += 1
+                if t is None:
+                    v.append(("lost-update", "tile (%d,%d,%d) missing" % (g["levels"], tx, ty)))
+                    continue
+                miss = np.isnan(t) & ~np.isnan(cut)
+                if miss.any():
+                    rows = sorted({int(r) for r in np.argwhere(miss)[:, 0]})
+                    v.append(("lost-update", "tile (%d,%d,%d): %d defined mosaic pixels are undefined in the result (rows %s...): the contribution of input(s) %s is lost"
+                              % (g["levels"], tx, ty, int(miss.sum()), rows[:4], sorted({(r + ty * 256 - g["gy0"]) % n for r in rows})[:6])))
+                elif not np.array_equal(t, cut, equal_nan=True):
+                    v.append(("wrong-pixels", "tile (%d,%d,%d) differs from the mosaic" % (g["levels"], tx, ty)))
+    else:
+        # the combined grid is chosen by reproject: the serial run of the same stage is the reference (the inputs define
+        # disjoint pixel sets, so the union does not depend on the order of the updates)
+        outs = os.path.join(workdir, "pyr-serial")
+        pio_s = PyramidIO(outs, default_format="fits")
+        proc_s = MultiWcsProcessor(SimpleFitsCollection(paths))
+        proc_s.compute_global_pixelization(Builder(pio_s))
+        proc_s.tile(pio_s, _reproject_identity, parallel=1)
+        ts = tilegen.list_tiles(outs, "fits")
+        if set(tiles) != set(ts):
+            v.append(("lost-update", "tile sets differ from the serial run: %s" % sorted(set(tiles) ^ set(ts))[:5]))
+        for t in sorted(set(tiles) & set(ts)):
+            a, r_ = tilegen.read_tile(out, t, "fits"), tilegen.read_tile(outs, t, "fits")
+            nt += 1
+            miss = np.isnan(a) & ~np.isnan(r_)
+            if miss.any():
+                v.append(("lost-update", "tile %s: %d pixels defined by the serial run are undefined" % (t, int(miss.sum()))))
+            elif not np.array_equal(a, r_, equal_nan=True):
+                v.append(("wrong-pixels", "tile %s differs from the serial run" % (t,)))
+        if not ts:
+            return dict(status="inconclusive", detail="serial multi-WCS run produced no tiles")
+    locks = [f for root, _, fs in os.walk(out) for f in fs if f.endswith(".lock")]
+    c = models.log_counters(recs)
+    res = dict(counters=dict(stage_histories=1, stage_tiles=nt, stage_workers=c.get("workers", 0), **{"stage_" + spec["kind"]: 1}), nontrivial=c.get("workers", 0) >= 2,
+               sample=dict(spec=spec, levels=levels, tiles=len(deepest)))
+    if v:
+        keys = sorted({k for k, _ in v})
+        res.update(status="violation", key="stage:" + "+".join(keys), detail="; ".join(t for _, t in v[:4]), witness_files=dict(eventlog=log))
+    return res
+
+
+def _reproject_identity(input_data, output_projection=None, shape_out=None, return_footprint=False, **kw):
+    """stand-in for reproject.reproject_interp on inputs that share the target grid: nearest pixel through the two WCSs"""
+    arr, wcs_in = input_data
+    yy, xx = np.mgrid[0:shape_out[0], 0:shape_out[1]]
+    w = output_projection.pixel_to_world_values(xx, yy)
+    px, py = wcs_in.world_to_pixel_values(*w)
+    ix, iy = np.rint(px).astype(int), np.rint(py).astype(int)
+    ok = (ix >= 0) & (iy >= 0) & (ix < arr.shape[1]) & (iy < arr.shape[0])
+    outa = np.full(shape_out, np.nan, np.float64)
+    outa[ok] = arr[iy[ok], ix[ok]]
+    return (outa, ok.astype(float)) if return_footprint else outa
+
+
 def run_case(spec, workdir):
     if spec["t"] == "hist":
         return case_hist(spec, workdir)
+    if spec["t"] == "stage":
+        return case_stage(spec, workdir)
     return case_sampling(spec, workdir)
 
 
